@@ -113,6 +113,13 @@ func (u *Unit) verifyFunc() {
 	st.Assume(u.modelInvariants(st))
 	if u.variant != nil {
 		st.Assume(u.evalSpecBool(env, u.variant.Expr))
+	} else {
+		// the base run covers the inputs outside every variant; each variant run proves the
+		// whole contract again under its assumption, for its own property (so a defect
+		// confined to degenerate shapes alarms C20 and not the general properties, and vice versa)
+		for _, v := range ct.Variants {
+			st.Assume(Not(u.evalSpecBool(env, v.Expr)))
+		}
 	}
 	for _, h := range ct.Hints {
 		st.Assume(u.evalHint(env, h))
